@@ -208,6 +208,10 @@ MonViol(mm, m2, e) ==
            ~\E i \in NewNet(e) : e.net[i].kind = "hs" /\ e.net[i].to = In(e).from
         THEN {"C03.WrongSource"} ELSE {})
   \cup (IF \E r \in {x[1] : x \in m2.hsof} : Count({x \in m2.hsof : x[1] = r}) > 1 THEN {"C03.TwoHandshakes"} ELSE {})
+  \* ---------------- C12 (handler part): an incoming session is reported established only if the UDP address of the record
+  \* equals the address the handshake came from (a record without address fields is not admissible downstream anyway)
+  \cup (IF \E j \in Evs(e, "Established") : e.out[j].dir = "In" /\ e.out[j].rec # "L:1" /\ RecOf(e.out[j].rec).sock \notin {"none", e.out[j].addr}
+        THEN {"C12.SingleStack"} ELSE {})
   \* ---------------- C15 (handler part)
   \cup (IF Len(Get(e.snap, "sessions", <<>>)) > mm.cfg.cap THEN {"C15.Capacity"} ELSE {})
   \cup (IF \E i \in 1..Len(mm.idle) : mm.idle[i].u > mm.cfg.ttl /\
